@@ -417,6 +417,13 @@ def monitor_sm(ops, outs, pid, extras=None):
                 if not pending_a:
                     fails.append((i, "unrequested-ack"))
                 else:
+                    # requests that arrived while it is not known whether SM was on (None) may have
+                    # gone unanswered: skip them when the answer fits the first definite request
+                    j = 0
+                    while j < len(pending_a) and pending_a[j] is None:
+                        j += 1
+                    if j < len(pending_a) and j > 0 and int(k[1]) == pending_a[j] % (1 << 32):
+                        del pending_a[:j]
                     want = pending_a.pop(0)
                     if want is not None and int(k[1]) != want % (1 << 32):
                         fails.append((i, "ack-h want %d got %s" % (want, k[1])))
@@ -514,7 +521,8 @@ def monitor_sm(ops, outs, pid, extras=None):
                     fails.append((i, "failed-release want %s got %s" % (smq_before[k0:][:6], ln["smq"][:6])))
             elif hv is None and ln["smq"] != smq_before and b"item-not-found" in (unhx(t[1]) or b""):
                 fails.append((i, "failed-lost want %s got %s" % (smq_before[:6], ln["smq"][:6])))
-        if pid == "C04" and sm_event and sm_event[0] == "enabled" and en_after and ln["st"] != "d":
+        if pid == "C04" and sm_event and sm_event[0] == "enabled" and en_after and ln["st"] != "d" \
+                and not active_conn:       # (a stray <enabled/> on an established session is ignored)
             # a new logical session: what was still retained is sent again, first, in order
             expect_resend = [] if poisoned else [log[n] for n in smq_before if n in log]
             log = {}
